@@ -54,3 +54,23 @@ def _(data_array, filename, dtype, band_names, crs, transform):
                      for r in range(data_array.data.shape[0]) for c in range(data_array.data.shape[1]))))
     invariant(1, all(eq(written_file(filename)[k, r, c], data_array.data[r, c, k])
                      for k in range(dsp - 1) for r in range(row) for c in range(col)))
+
+
+# the command-line entry: configuration and datasets are checked BEFORE any matching starts (C17), the pipeline runs on the checked
+# configuration with (left, right) in this order, what run returned is what is saved (C19), and the saved configuration is the
+# checked one plus the machine's margins (C19, C20)
+@contract("pandora.main", props=["C19", "C17", "C20"])
+def _(cfg_path, output, verbose):
+    types(cfg_path="opaque", output="opaque", verbose="opaque")
+    option(glue=True)
+    ensures("checked_before_running", called_before("check_conf", "create_dataset_from_inputs"), called_before("check_datasets", "run"),
+            called_before("create_dataset_from_inputs", "check_datasets"), ncalls("run") == 1, ncalls("check_datasets") == 1)
+    ensures("run_on_the_checked_configuration", call_arg_mentions("run", 0, 3, "check_conf(read_config_file(cfg_path)"),
+            call_arg_mentions("run", 0, 1, "['left']"), not call_arg_mentions("run", 0, 1, "['right']"),
+            call_arg_mentions("run", 0, 2, "right"), call_arg_mentions("check_datasets", 0, 0, "['left']"),
+            not call_arg_mentions("check_datasets", 0, 0, "['right']"))
+    ensures("saves_what_run_returned", ncalls("save_results") == 1, called_before("run", "save_results"),
+            call_arg_mentions("save_results", 0, 2, "output"))
+    ensures("saved_configuration_is_the_checked_one_with_margins", ncalls("save_config") == 1, called_before("save_results", "save_config"),
+            call_arg_mentions("save_config", 0, 0, "output"), call_arg_mentions("save_config", 0, 1, "check_conf(read_config_file(cfg_path)"),
+            ".margins.to_dict()" in last_store("['margins']"), "PandoraMachine" in last_store("['margins']"))
